@@ -2,7 +2,7 @@
    K is any ring with i*i = -1 (PLaws; every RingOps.Laws instance, in particular C, is one: PLaws_of_Laws);
    qs is the ordered qubit list the matrices are taken over (PauliString.matrix(qubits)). *)
 From Coq Require Import List ZArith Bool.
-From VF Require Import Base.RingOps Base.Mat Cliff.Pauli Cliff.PauliProofs Generated.PauliTables.
+From VF Require Import Base.RingOps Base.Mat Cliff.Pauli Cliff.PauliProofs Cliff.PauliHist Cliff.PauliHistProofs Generated.PauliTables.
 Import ListNotations.
 Close Scope Z_scope.
 
@@ -230,6 +230,64 @@ Theorem C14_phasor_minus_one : forall {K} (O : Ops K), Laws O -> forall l,
 Proof. exact @phasor_minus_one. Qed.
 Print Assumptions C14_phasor_minus_one.
 
+(* ---- histories of in-place operations on one mutable object (Cliff/PauliHist.v): whatever was observed of the
+   object before, its state after a sequence of *= / /= steps has as matrix the same sequence of operations on the
+   starting matrix; a rejected step (ValueError / IndexError) changes nothing; assignments replace exactly the
+   addressed letters; the number of positions never changes ---- *)
+Theorem C14_ds_step_accepts : forall {K} (O : Ops K) (a : dstr) (s : dstep),
+  (exists r, ds_step O a s = Some r) <-> accepts (length (dmask a)) s = true.
+Proof. exact @ds_step_accepts. Qed.
+Print Assumptions C14_ds_step_accepts.
+
+Theorem C14_ds_final_length : forall {K} (O : Ops K) (l : list dstep) (a : dstr),
+  length (dmask (ds_final O a l)) = length (dmask a).
+Proof. exact @ds_final_length. Qed.
+Print Assumptions C14_ds_final_length.
+
+Theorem C14_ds_step_sound : forall {K} (O : Ops K), PLaws O -> forall (a r : dstr) (s : dstep),
+  algebraic s = true -> ds_step O a s = Some r ->
+  ds_matrix O r = dstep_mat O (length (dmask a)) (ds_matrix O a) s.
+Proof. exact @ds_step_sound. Qed.
+Print Assumptions C14_ds_step_sound.
+
+Theorem C14_ds_final_sound : forall {K} (O : Ops K), PLaws O -> forall (l : list dstep) (a : dstr),
+  forallb algebraic l = true ->
+  ds_matrix O (ds_final O a l) = fold_left (dstep_mat O (length (dmask a))) l (ds_matrix O a).
+Proof. exact @ds_final_sound. Qed.
+Print Assumptions C14_ds_final_sound.
+
+Theorem C14_ds_trace_final : forall {K} (O : Ops K) (l : list dstep) (a : dstr),
+  last (map snd (ds_trace O a l)) a = ds_final O a l.
+Proof. exact @ds_trace_final. Qed.
+Print Assumptions C14_ds_trace_final.
+
+Theorem C14_ds_trace_prefix : forall {K} (O : Ops K) (l1 l2 : list dstep) (a : dstr),
+  ds_trace O a (l1 ++ l2) = ds_trace O a l1 ++ ds_trace O (ds_final O a l1) l2.
+Proof. exact @ds_trace_prefix. Qed.
+Print Assumptions C14_ds_trace_prefix.
+
+Theorem C14_ds_set_sound : forall {K} (O : Ops K) (a r : dstr) i p, ds_step O a (DSet i p) = Some r ->
+  dcoef r = dcoef a /\ forall j, nth j (dmask r) pI = if Nat.eqb j i then p else nth j (dmask a) pI.
+Proof. exact @ds_set_sound. Qed.
+Print Assumptions C14_ds_set_sound.
+
+Theorem C14_ds_slice_sound : forall {K} (O : Ops K) (a r : dstr) lo v, ds_step O a (DSlice lo v) = Some r ->
+  dcoef r = dcoef a /\ forall j, nth j (dmask r) pI
+    = if Nat.leb lo j && Nat.ltb j (lo + length v) then nth (j - lo) v pI else nth j (dmask a) pI.
+Proof. exact @ds_slice_sound. Qed.
+Print Assumptions C14_ds_slice_sound.
+
+Theorem C14_psum_final_sound : forall {K} (O : Ops K), PLaws O -> forall qs (l : list sstep) (a : psum),
+  forallb (slinear) l = true ->
+  psum_matrix O qs (psum_final O a l) = fold_left (sstep_mat O qs) l (psum_matrix O qs a).
+Proof. exact @psum_final_sound. Qed.
+Print Assumptions C14_psum_final_sound.
+
+Theorem C14_psum_trace_final : forall {K} (O : Ops K) (l : list sstep) (a : psum),
+  last (psum_trace O a l) a = psum_final O a l.
+Proof. exact @psum_trace_final. Qed.
+Print Assumptions C14_psum_trace_final.
+
 (* the exact instance the correspondence run evaluates satisfies the hypotheses of every theorem above *)
 Theorem C14_GQ_PLaws : PLaws GQOps.
 Proof. exact GQ_PLaws. Qed.
@@ -258,3 +316,14 @@ Proof. reflexivity. Qed.
 Example C14_ex_nondegenerate :
   kadd GQOps (kmul GQOps (gq 1 1 0 1) (gq 0 1 1 2)) (kmul GQOps (gq 1 1 0 1) (gq 0 1 1 2)) <> k0 GQOps.
 Proof. vm_compute. intros H. discriminate H. Qed.
+(* a history: X Y, *= Z on the first position, a rejected *= by a longer string, *= i, [1] = Z *)
+Example C14_ex_ds_history :
+  dtrace_eqb (ds_trace GQOps (mkD (gq 1 1 0 1) [pX; pY])
+                [DMul (mkD (gq 1 1 0 1) [pZ]); DMul (mkD (gq 1 1 0 1) [pX; pX; pX]); DScale (gq 0 1 1 1); DSet 1 pZ])
+             [(true, mkD (gq 0 1 (-1) 1) [pY; pY]); (false, mkD (gq 0 1 (-1) 1) [pY; pY]);
+              (true, mkD (gq 1 1 0 1) [pY; pY]); (true, mkD (gq 1 1 0 1) [pY; pZ])] = true
+  /\ forallb (algebraic (K:=GQ)) [DMul (mkD (gq 1 1 0 1) [pZ]); DScale (gq 0 1 1 1)] = true
+  /\ (exists r, ds_step GQOps (mkD (gq 1 1 0 1) [pX; pY]) (DSet 1 pZ) = Some r)
+  /\ (exists r, ds_step GQOps (mkD (gq 1 1 0 1) [pX; pY]) (DSlice 0 [pZ; pZ]) = Some r)
+  /\ forallb (slinear (K:=GQ)) [SAdd []; SScale (gq 2 1 0 1)] = true.
+Proof. vm_compute. repeat split; eexists; reflexivity. Qed.
